@@ -619,7 +619,9 @@ def binding_selftest(batches, tag):
     v, _ok, _r = conn.validate(path)
     hit = set((m["x"], m["n"]) for m in v)
     rejected = {k: sum(1 for xn in xs if xn in hit) for k, xs in done.items()}
-    missed = [k for k, xs in done.items() if xs and rejected[k] == 0]
+    # the history part (len, cnt) is always on; the readiness comparison belongs to the model part, which is switched off
+    # for the rest of an execution after a mismatch and does not exist for btls: its rejection is reported, not demanded
+    missed = [k for k, xs in done.items() if xs and rejected[k] == 0 and k != "rd"]
     if missed:
         raise InternalError("the trace specification accepted falsified observations (%s): the conformance step is vacuous" % ", ".join(missed))
     return {"falsified": {k: len(xs) for k, xs in done.items()}, "rejected": rejected}
